@@ -200,12 +200,12 @@ namespace Pistache
     template <typename T>
     size_t digitsCount(T val)
     {
-        size_t digits = 0;
-        while (val % 10)
+        // Number of characters of val written in decimal: at least one
+        // digit, plus the sign
+        size_t digits = (val < 0) ? 2 : 1;
+        while ((val /= 10) != 0)
         {
             ++digits;
-
-            val /= 10;
         }
 
         return digits;
@@ -235,8 +235,19 @@ namespace Pistache
         size_t operator()(Int val) const { return digitsCount(val); } \
     }
 
-    DEFINE_INTEGRAL_SIZE(uint8_t);
-    DEFINE_INTEGRAL_SIZE(int8_t);
+    // 8-bit integers are inserted into a stream as a single character
+    template <>
+    struct Size<uint8_t>
+    {
+        constexpr size_t operator()(uint8_t) const { return 1; }
+    };
+
+    template <>
+    struct Size<int8_t>
+    {
+        constexpr size_t operator()(int8_t) const { return 1; }
+    };
+
     DEFINE_INTEGRAL_SIZE(uint16_t);
     DEFINE_INTEGRAL_SIZE(int16_t);
     DEFINE_INTEGRAL_SIZE(uint32_t);
